@@ -490,3 +490,11 @@ def run(ctx, report: Report) -> None:
         r5.violation('CSSParser.__init__ self.pattern', pmod.where(stored[0]),
                      f'CSSParser stores the pattern as `{unparse(v)}`; only NUL -> U+FFFD is allowed between the API '
                      f'and the tokenizer')
+
+    # ---- R6 ----------------------------------------------------------------------------------------------------
+    r6 = report.rule('C10-R6', 'an escaped identifier reaches the IR through one decode and position-based unquoting only', floor=8)
+    from .c09 import decode_pipeline_rule
+    decode_pipeline_rule(ctx, r6, r6)
+    # only the decode / unquoting findings belong to this property (the case-folding findings are C09/C11 material)
+    r6.findings[:] = [f for f in r6.findings if 'decodes=' in f.key or ' step ' in f.key or 'slice after decode' in f.key]
+
